@@ -11,7 +11,12 @@ RULE = ('E4 crash points: every reference-encoded valid frame of the corpus '
         '4096 bytes: first/last 300 offsets, every structural field boundary '
         '+-2 and every 251st offset); the representative frames again with '
         'debug logging switched on. A case is one strict prefix; distinct '
-        'by content; non-trivial = cut inside the frame body (>= 7 bytes).')
+        'by content; non-trivial = cut inside the frame body (>= 7 bytes).'
+        ' '
+        'Also: the complete frame is decoded as the control of each '
+        'experiment; every cut of the representative frames is also '
+        'given as a bytearray and as a writable memoryview; import '
+        'probes and -bb / -OO -bb child interpreters.')
 BOUNDS = {'quick': {'frames': 'K_rep + misc + <=2-deviation method vectors + '
                     'C02-quick headers', 'cuts': 'all (structural subset above '
                     '4096 bytes)'},
